@@ -112,6 +112,28 @@ def run(tier, seed):
         info.update({'label': label, 'option_sets': len(optsets), 'scripts': m['n'],
                      'format_calls': m['extra']['format_calls'], 'outcomes': dict(m['outcomes'])})
         report.append(info)
+    # ---- multi-statement scripts: the statement-count clause and cross-statement filter state
+    scripts = e2.script_texts(tier)
+    s_opts = lay1 + options.SINGLE_FILTER[7:9]
+
+    def ev_script(text, acc, sqlparse):
+        sig_in = oracles.sig(text)
+        n_in = len(sqlparse.split(text))
+        for o in s_opts:
+            acc.extra['format_calls'] += 1
+            bad = check_case(sqlparse, text, o, sig_in, n_in)
+            if bad:
+                acc.violation(e2.viol(bad[0], bad[1] + '|' + _optsig(o) + '|script', bad[2], text, {}, 'script', 1, o))
+        acc.case(text, n_in >= 2, outcome=f'{min(n_in, 3)} statements', sample={'script': text})
+    ms = e2.run_texts(scripts, ev_script, seed, setup=_setup)
+    viols += ms['viol']
+    vc.update(ms['viol_count'])
+    n_eval += ms['extra']['format_calls']
+    n_dist += ms['distinct']
+    samples += ms['samples'][:2]
+    report.append({'label': 'scripts of 2-3 seed statements x every separator filler x layout option sets',
+                   'scripts': ms['n'], 'option_sets': len(s_opts), 'format_calls': ms['extra']['format_calls'],
+                   'outcomes': dict(ms['outcomes'])})
     cov = {
         'evaluations': n_eval, 'distinct_nontrivial': n_dist,
         'rule': 'cases = (seed derivation of the verification grammar, <= d deviations among derivation '
